@@ -20,7 +20,7 @@ RULE = ("cadzow: full rectangular site grids 1-4 columns x 4-40 rows in shuffled
         "Non-trivial: grid with >= 2 columns / >= 2 spikes per bin somewhere / >= 2 labels with fold > 1; distinct = distinct (function, shape, "
         "parameters) signature")
 ASSUMPTIONS = ["spike times are sorted (as produced by spike sorters)", "floating point tolerances: identities 1e-10 relative, polynomial reproduction rtol 1e-6"]
-REQUIRED = {"smooth_integer_constants": 20, "cadzow_np1_identity": 6, "cadzow_identity": 10, "cadzow_planewave": 10, "svd_identity": 10, "svd_offset_identity": 10, "smooth_constants": 30, "savgol_polynomials": 30, "savgol_nan": 10,
+REQUIRED = {"smooth_call_histories": 100, "smooth_integer_constants": 20, "cadzow_np1_identity": 6, "cadzow_identity": 10, "cadzow_planewave": 10, "svd_identity": 10, "svd_offset_identity": 10, "smooth_constants": 30, "savgol_polynomials": 30, "savgol_nan": 10,
             "venn_conservation": 20, "stack_checked": 10}
 CASE_TIMEOUT = 200.0
 
@@ -221,6 +221,35 @@ def run_case(case):
                 sigs.add(("smooth", n // 50))
             except Exception as e:
                 res.exception("smooth:lp-exception", e, label)
+            # call histories (round 21): a smoother is a function of its arguments.  Several calls on series of ONE length and padding with different
+            # corner pairs, highest first (the order in which a caller tunes a smoother down), then in random order: every constant comes back, and
+            # repeating the very first call at the end gives the very same numbers
+            nh = int(rng.integers(8, 600))
+            padh = float(rng.choice([0.2, 0.05, 0.5]))
+            f0s = np.sort(rng.uniform(0.01, 0.6, 4))[::-1]
+            facs = [[float(f), float(f + rng.uniform(0.02, 0.3))] for f in f0s]
+            order = list(range(4)) + [int(k) for k in rng.permutation(4)]
+            xh = rng.standard_normal(nh)
+            label = f"lp call history n={nh} pad={padh} corners={np.round(facs, 3).tolist()} order={order}"
+            try:
+                first = SM.lp(xh, facs[0], pad=padh)
+                for k in order:
+                    ch = float(rng.uniform(-5, 5))
+                    outh = SM.lp(np.full(nh, ch), facs[k], pad=padh)
+                    res.check(outh.shape == (nh,) and np.max(np.abs(outh - ch)) <= 1e-12 * max(1, abs(ch)), "smooth:lp-constant:call-history",
+                              f"{label}: call with corners {np.round(facs[k], 3).tolist()}: constant {ch} becomes {np.asarray(outh)[:3]}", counter="smooth_call_histories")
+                again = SM.lp(xh, facs[0], pad=padh)
+                res.check(np.array_equal(first, again), "smooth:lp:call-history", f"{label}: the first call repeated after the others differs by "
+                          f"{float(np.max(np.abs(np.asarray(first) - np.asarray(again)))) if np.shape(first) == np.shape(again) else 'shape'}")
+                # the same history through the spectral low-pass the smoother is built on (sampling interval 1, corners in cycles per sample)
+                import ibldsp.fourier as FO
+                for k in order:
+                    ch = float(rng.uniform(-5, 5))
+                    outf = FO.lp(np.full(nh, ch), 1.0, [facs[k][0] / 2, facs[k][1] / 2])
+                    res.check(np.max(np.abs(outf - ch)) <= 1e-9 * max(1, abs(ch)), "fourier-lp-constant:call-history",
+                              f"{label}: fourier.lp corners {np.round(facs[k], 3).tolist()}/2: constant {ch} becomes {np.asarray(outf)[:3]}")
+            except Exception as e:
+                res.exception("smooth:lp-exception:call-history", e, label)
     elif cls == "savgol":
         import ibldsp.smooth as SM
         for _ in range(case["n"]):
